@@ -1,1 +1,77 @@
-fn main(){}
+use std::path::PathBuf;
+use vprop::engine::*;
+
+fn usage() -> ! {
+  eprintln!("usage: vprop <ID> [--tier quick|thorough] [--replay FILE] [--seed N] [--scale F] [--selftest]");
+  std::process::exit(2)
+}
+
+fn main() {
+  let args: Vec<String> = std::env::args().skip(1).collect();
+  if args.is_empty() {
+    usage();
+  }
+  let prop = args[0].clone();
+  let mut tier = match std::env::var("VERIF_TIER").as_deref() {
+    Ok("thorough") => Tier::Thorough,
+    _ => Tier::Quick,
+  };
+  let mut seed: u64 = std::env::var("VERIF_SEED")
+    .ok()
+    .and_then(|s| s.trim().parse::<i128>().ok())
+    .map(|v| v as u64)
+    .unwrap_or(1);
+  let mut replay = None;
+  let mut scale = 1.0;
+  let mut selftest = false;
+  let mut survey = false;
+  let mut i = 1;
+  while i < args.len() {
+    match args[i].as_str() {
+      "--tier" => {
+        i += 1;
+        tier = match args.get(i).map(|s| s.as_str()) {
+          Some("quick") => Tier::Quick,
+          Some("thorough") => Tier::Thorough,
+          _ => usage(),
+        };
+      }
+      "--replay" => {
+        i += 1;
+        replay = Some(PathBuf::from(args.get(i).unwrap_or_else(|| usage())));
+      }
+      "--seed" => {
+        i += 1;
+        seed = args.get(i).and_then(|s| s.parse().ok()).unwrap_or_else(|| usage());
+      }
+      "--scale" => {
+        i += 1;
+        scale = args.get(i).and_then(|s| s.parse().ok()).unwrap_or_else(|| usage());
+      }
+      "--selftest" => selftest = true,
+      "--survey" => survey = true,
+      _ => usage(),
+    }
+    i += 1;
+  }
+  let cfg = RunCfg {
+    prop: prop.clone(),
+    tier,
+    seed,
+    strict: replay.is_some(),
+    replay,
+    scale,
+    selftest,
+    survey,
+  };
+  install_panic_hook();
+  let code = match prop.as_str() {
+    "C10" => vprop::c10::run(&cfg),
+    "C19" => vprop::c19::run(&cfg),
+    _ => {
+      eprintln!("unknown property {prop}");
+      2
+    }
+  };
+  std::process::exit(code);
+}
